@@ -30,7 +30,15 @@ GROUPS = [
       enforce='Repetition__transform', harness='harness/c11.c', models=['models/libm_contracts.h', 'models/alloc_models.h'],
       defines={'VF_FIXED_TYPE': 2}, unwind=3, kind='unbounded', timeout=900,
       bound='Regular kind: loop-free, complete over all doubles, both reflection states, all column/row counts'),
-    # ExplicitX / ExplicitY branches of Repetition::transform: NOT claimed.  CBMC mis-evaluates a[GK] when the pointer a is
+] + [
+    P('rep_transform_explicit' + sfx, 'transform', 'h_rep_transform', tu='src/repetition.cpp', roots=['gdstk::Repetition::transform'],
+      enforce='Repetition__transform', harness='harness/c11.c', models=['models/libm_contracts.h', 'models/alloc_models.h'],
+      defines={'VF_FIXED_TYPE': t, 'VF_EXPLICIT_ONLY': 1}, unwind=4, kind='bounded', timeout=1200, disjoint_unions=['Repetition'],
+      apply_loop_contracts=False, loop_contracts_for=[],
+      bound='%s kind with a rotation: coordinate lists of 1..2 entries (loops unwound, unwinding assertions on), all doubles, both reflection states' % nm)
+    for sfx, t, nm in [('x', 4, 'ExplicitX'), ('y', 5, 'ExplicitY')]
+] + [
+    # ExplicitX / ExplicitY branches of Repetition::transform: (history)  CBMC mis-evaluates a[GK] when the pointer a is
     # loaded from a union member (Repetition.coords.items): the tautology GK == 1 ==> a[GK] == a[1] FAILS (DESIGN.md 9.8).
 ]
 TRUSTED_BASE = ['clang 14 AST', 'tools/cxx2c.py lowering', 'cbmc 6.11.0 (dfcc + SAT)', 'side-car contracts; spec/geom_spec.h']
